@@ -1,4 +1,4 @@
-CONSTANTS Deep = FALSE
+CONSTANTS Deep = TRUE
 SPECIFICATION Spec
 INVARIANTS ShapesOK
 CHECK_DEADLOCK FALSE
